@@ -121,6 +121,17 @@ def match_finding(findings, prop, vrec, cfg):
     return None
 
 
+def execute(spec, cfg, prefix, mons=None, **kw):
+    """one execution of the real engine + the spec's end-of-execution oracle (twin runs)"""
+    if mons is None:
+        mons = list(spec.monitors(cfg))
+    res = harness.run(cfg, prefix, mons, **kw)
+    if hasattr(spec, "post"):
+        for clause, detail in spec.post(cfg, res, mons):
+            res.violations.append(harness.Violation(spec.id, clause, detail, res.nevents, None))
+    return res
+
+
 def _dev_counts(choices):
     out = [0]
     for c in choices:
@@ -149,7 +160,7 @@ def _work(task):
             mons = list(spec.monitors(cfg))
             if account:
                 mons.append(Accounting(ACC))
-            res = harness.run(cfg, p, mons, keep_Q=True)
+            res = execute(spec, cfg, p, mons, keep_Q=True)
             n += 1
             ch = res.choices
             obs = observation(res.Q, res.events)
@@ -202,7 +213,7 @@ def _work(task):
             # replay determinism on a deterministic subset
             if (od % 97 == 0) or n == 1:
                 mons2 = list(spec.monitors(cfg))
-                res2 = harness.run(cfg, ch, mons2, ptags=list(zip(res.tags, res.arity)), strict=True, keep_Q=True)
+                res2 = execute(spec, cfg, ch, mons2, ptags=list(zip(res.tags, res.arity)), strict=True, keep_Q=True)
                 if observation(res2.Q, res2.events) != obs or res2.choices != ch or \
                         [v.clause for v in res2.violations] != [v.clause for v in res.violations]:
                     raise env.HarnessError("replay of %r on cfg %s is not deterministic" % (ch, cfg.get("name")))
@@ -358,7 +369,7 @@ def unlisted(spec, cfg, res, clause):
 def minimise(spec, cfg, choices, clause):
     """Greedy: reset non-default answers to the default while the same (unlisted) clause still fails."""
     def fails(pref):
-        res = harness.run(cfg, tuple(pref), list(spec.monitors(cfg)))
+        res = execute(spec, cfg, tuple(pref))
         if unlisted(spec, cfg, res, clause) is not None:
             return res
         return None
@@ -408,6 +419,5 @@ def write_replay(spec, cfg, res, v, outdir):
 def replay_file(spec, path):
     body = json.load(open(path))
     cfg = body["config"]
-    res = harness.run(cfg, tuple(body["choices"]), list(spec.monitors(cfg)),
-                      ptags=list(zip(body["tags"], body["arity"])), strict=True)
+    res = execute(spec, cfg, tuple(body["choices"]), ptags=list(zip(body["tags"], body["arity"])), strict=True)
     return body, res
